@@ -197,23 +197,83 @@ let iface_body = function
          | _ -> [])))
 | _ -> []
 
-(** val register_ts_decl : env -> node -> st -> st **)
+(** val register_ts_decl : node -> st -> st **)
 
-let register_ts_decl e n s =
-  if negb e.e_opts.o_resolve_type
-  then s
+let register_ts_decl n s =
+  if is_ty (String ((Ascii (false, false, true, false, true, false, true,
+       false)), (String ((Ascii (true, true, false, false, true, true, true,
+       false)), (String ((Ascii (true, false, false, true, false, false,
+       true, false)), (String ((Ascii (false, true, true, true, false, true,
+       true, false)), (String ((Ascii (false, false, true, false, true, true,
+       true, false)), (String ((Ascii (true, false, true, false, false, true,
+       true, false)), (String ((Ascii (false, true, false, false, true, true,
+       true, false)), (String ((Ascii (false, true, true, false, false, true,
+       true, false)), (String ((Ascii (true, false, false, false, false,
+       true, true, false)), (String ((Ascii (true, true, false, false, false,
+       true, true, false)), (String ((Ascii (true, false, true, false, false,
+       true, true, false)), (String ((Ascii (false, false, true, false,
+       false, false, true, false)), (String ((Ascii (true, false, true,
+       false, false, true, true, false)), (String ((Ascii (true, true, false,
+       false, false, true, true, false)), (String ((Ascii (false, false,
+       true, true, false, true, true, false)), (String ((Ascii (true, false,
+       false, false, false, true, true, false)), (String ((Ascii (false,
+       true, false, false, true, true, true, false)), (String ((Ascii (true,
+       false, false, false, false, true, true, false)), (String ((Ascii
+       (false, false, true, false, true, true, true, false)), (String ((Ascii
+       (true, false, false, true, false, true, true, false)), (String ((Ascii
+       (true, true, true, true, false, true, true, false)), (String ((Ascii
+       (false, true, true, true, false, true, true, false)),
+       EmptyString)))))))))))))))))))))))))))))))))))))))))))) n
+  then (match tf (String ((Ascii (true, false, false, true, false, true,
+                true, false)), (String ((Ascii (false, false, true, false,
+                false, true, true, false)), EmptyString)))) n with
+        | Ident (sym, c, _) ->
+          let body =
+            tlist (String ((Ascii (false, true, false, false, false, true,
+              true, false)), (String ((Ascii (true, true, true, true, false,
+              true, true, false)), (String ((Ascii (false, false, true,
+              false, false, true, true, false)), (String ((Ascii (true,
+              false, false, true, true, true, true, false)),
+              EmptyString))))))))
+              (tf (String ((Ascii (false, true, false, false, false, true,
+                true, false)), (String ((Ascii (true, true, true, true,
+                false, true, true, false)), (String ((Ascii (false, false,
+                true, false, false, true, true, false)), (String ((Ascii
+                (true, false, false, true, true, true, true, false)),
+                EmptyString)))))))) n)
+          in
+          let ext =
+            tlist (String ((Ascii (true, false, true, false, false, true,
+              true, false)), (String ((Ascii (false, false, false, true,
+              true, true, true, false)), (String ((Ascii (false, false, true,
+              false, true, true, true, false)), (String ((Ascii (true, false,
+              true, false, false, true, true, false)), (String ((Ascii
+              (false, true, true, true, false, true, true, false)), (String
+              ((Ascii (false, false, true, false, false, true, true, false)),
+              (String ((Ascii (true, true, false, false, true, true, true,
+              false)), EmptyString)))))))))))))) n
+          in
+          set_interfaces
+            (reg_update sym c (fun old ->
+              match old with
+              | Some i ->
+                NArr ((NArr (app (iface_extends i) ext)) :: ((NArr
+                  (app (iface_body i) body)) :: []))
+              | None -> NArr ((NArr ext) :: ((NArr body) :: [])))
+              s.interfaces) s
+        | _ -> s)
   else if is_ty (String ((Ascii (false, false, true, false, true, false,
             true, false)), (String ((Ascii (true, true, false, false, true,
-            true, true, false)), (String ((Ascii (true, false, false, true,
-            false, false, true, false)), (String ((Ascii (false, true, true,
-            true, false, true, true, false)), (String ((Ascii (false, false,
-            true, false, true, true, true, false)), (String ((Ascii (true,
+            true, true, false)), (String ((Ascii (false, false, true, false,
+            true, false, true, false)), (String ((Ascii (true, false, false,
+            true, true, true, true, false)), (String ((Ascii (false, false,
+            false, false, true, true, true, false)), (String ((Ascii (true,
             false, true, false, false, true, true, false)), (String ((Ascii
-            (false, true, false, false, true, true, true, false)), (String
-            ((Ascii (false, true, true, false, false, true, true, false)),
-            (String ((Ascii (true, false, false, false, false, true, true,
-            false)), (String ((Ascii (true, true, false, false, false, true,
-            true, false)), (String ((Ascii (true, false, true, false, false,
+            (true, false, false, false, false, false, true, false)), (String
+            ((Ascii (false, false, true, true, false, true, true, false)),
+            (String ((Ascii (true, false, false, true, false, true, true,
+            false)), (String ((Ascii (true, false, false, false, false, true,
+            true, false)), (String ((Ascii (true, true, false, false, true,
             true, true, false)), (String ((Ascii (false, false, true, false,
             false, false, true, false)), (String ((Ascii (true, false, true,
             false, false, true, true, false)), (String ((Ascii (true, true,
@@ -232,101 +292,37 @@ let register_ts_decl e n s =
                      true, false)), (String ((Ascii (false, false, true,
                      false, false, true, true, false)), EmptyString)))) n with
              | Ident (sym, c, _) ->
-               let body =
-                 tlist (String ((Ascii (false, true, false, false, false,
-                   true, true, false)), (String ((Ascii (true, true, true,
-                   true, false, true, true, false)), (String ((Ascii (false,
-                   false, true, false, false, true, true, false)), (String
-                   ((Ascii (true, false, false, true, true, true, true,
-                   false)), EmptyString))))))))
-                   (tf (String ((Ascii (false, true, false, false, false,
-                     true, true, false)), (String ((Ascii (true, true, true,
-                     true, false, true, true, false)), (String ((Ascii
-                     (false, false, true, false, false, true, true, false)),
-                     (String ((Ascii (true, false, false, true, true, true,
-                     true, false)), EmptyString)))))))) n)
-               in
-               let ext =
-                 tlist (String ((Ascii (true, false, true, false, false,
-                   true, true, false)), (String ((Ascii (false, false, false,
-                   true, true, true, true, false)), (String ((Ascii (false,
-                   false, true, false, true, true, true, false)), (String
-                   ((Ascii (true, false, true, false, false, true, true,
-                   false)), (String ((Ascii (false, true, true, true, false,
-                   true, true, false)), (String ((Ascii (false, false, true,
-                   false, false, true, true, false)), (String ((Ascii (true,
-                   true, false, false, true, true, true, false)),
-                   EmptyString)))))))))))))) n
-               in
-               set_interfaces
-                 (reg_update sym c (fun old ->
-                   match old with
-                   | Some i ->
-                     NArr ((NArr (iface_extends i)) :: ((NArr
-                       (app (iface_body i) body)) :: []))
-                   | None -> NArr ((NArr ext) :: ((NArr body) :: [])))
-                   s.interfaces) s
+               set_aliases
+                 (reg_update sym c (fun _ ->
+                   tf (String ((Ascii (false, false, true, false, true, true,
+                     true, false)), (String ((Ascii (true, false, false,
+                     true, true, true, true, false)), (String ((Ascii (false,
+                     false, false, false, true, true, true, false)), (String
+                     ((Ascii (true, false, true, false, false, true, true,
+                     false)), (String ((Ascii (true, false, false, false,
+                     false, false, true, false)), (String ((Ascii (false,
+                     true, true, true, false, true, true, false)), (String
+                     ((Ascii (false, true, true, true, false, true, true,
+                     false)), (String ((Ascii (true, true, true, true, false,
+                     true, true, false)), (String ((Ascii (false, false,
+                     true, false, true, true, true, false)), (String ((Ascii
+                     (true, false, false, false, false, true, true, false)),
+                     (String ((Ascii (false, false, true, false, true, true,
+                     true, false)), (String ((Ascii (true, false, false,
+                     true, false, true, true, false)), (String ((Ascii (true,
+                     true, true, true, false, true, true, false)), (String
+                     ((Ascii (false, true, true, true, false, true, true,
+                     false)), EmptyString)))))))))))))))))))))))))))) n)
+                   s.aliases) s
              | _ -> s)
-       else if is_ty (String ((Ascii (false, false, true, false, true, false,
-                 true, false)), (String ((Ascii (true, true, false, false,
-                 true, true, true, false)), (String ((Ascii (false, false,
-                 true, false, true, false, true, false)), (String ((Ascii
-                 (true, false, false, true, true, true, true, false)),
-                 (String ((Ascii (false, false, false, false, true, true,
-                 true, false)), (String ((Ascii (true, false, true, false,
-                 false, true, true, false)), (String ((Ascii (true, false,
-                 false, false, false, false, true, false)), (String ((Ascii
-                 (false, false, true, true, false, true, true, false)),
-                 (String ((Ascii (true, false, false, true, false, true,
-                 true, false)), (String ((Ascii (true, false, false, false,
-                 false, true, true, false)), (String ((Ascii (true, true,
-                 false, false, true, true, true, false)), (String ((Ascii
-                 (false, false, true, false, false, false, true, false)),
-                 (String ((Ascii (true, false, true, false, false, true,
-                 true, false)), (String ((Ascii (true, true, false, false,
-                 false, true, true, false)), (String ((Ascii (false, false,
-                 true, true, false, true, true, false)), (String ((Ascii
-                 (true, false, false, false, false, true, true, false)),
-                 (String ((Ascii (false, true, false, false, true, true,
-                 true, false)), (String ((Ascii (true, false, false, false,
-                 false, true, true, false)), (String ((Ascii (false, false,
-                 true, false, true, true, true, false)), (String ((Ascii
-                 (true, false, false, true, false, true, true, false)),
-                 (String ((Ascii (true, true, true, true, false, true, true,
-                 false)), (String ((Ascii (false, true, true, true, false,
-                 true, true, false)),
-                 EmptyString)))))))))))))))))))))))))))))))))))))))))))) n
-            then (match tf (String ((Ascii (true, false, false, true, false,
-                          true, true, false)), (String ((Ascii (false, false,
-                          true, false, false, true, true, false)),
-                          EmptyString)))) n with
-                  | Ident (sym, c, _) ->
-                    set_aliases
-                      (reg_update sym c (fun _ ->
-                        tf (String ((Ascii (false, false, true, false, true,
-                          true, true, false)), (String ((Ascii (true, false,
-                          false, true, true, true, true, false)), (String
-                          ((Ascii (false, false, false, false, true, true,
-                          true, false)), (String ((Ascii (true, false, true,
-                          false, false, true, true, false)), (String ((Ascii
-                          (true, false, false, false, false, false, true,
-                          false)), (String ((Ascii (false, true, true, true,
-                          false, true, true, false)), (String ((Ascii (false,
-                          true, true, true, false, true, true, false)),
-                          (String ((Ascii (true, true, true, true, false,
-                          true, true, false)), (String ((Ascii (false, false,
-                          true, false, true, true, true, false)), (String
-                          ((Ascii (true, false, false, false, false, true,
-                          true, false)), (String ((Ascii (false, false, true,
-                          false, true, true, true, false)), (String ((Ascii
-                          (true, false, false, true, false, true, true,
-                          false)), (String ((Ascii (true, true, true, true,
-                          false, true, true, false)), (String ((Ascii (false,
-                          true, true, true, false, true, true, false)),
-                          EmptyString)))))))))))))))))))))))))))) n)
-                        s.aliases) s
-                  | _ -> s)
-            else s
+       else s
+
+(** val collect_ts_decls : env -> (node -> node list) -> node -> st -> st **)
+
+let collect_ts_decls e subs_of m s =
+  if e.e_opts.o_resolve_type
+  then fold_left (fun s0 n -> register_ts_decl n s0) (subs_of m) s
+  else s
 
 type relem =
 | RProp of node * bool * bool * node
@@ -5249,7 +5245,7 @@ let build_props_type e ty defaults s =
         true, false)), (String ((Ascii (true, false, true, false, false,
         true, true, false)), EmptyString)))))))))),
       (match ir.ir_types with
-       | [] -> Arr (map (fun t -> Elem (false, (type_expr t))) [])
+       | [] -> Null
        | t :: l ->
          (match l with
           | [] -> type_expr t
